@@ -3,7 +3,7 @@
 cd /verif
 for d in /tmp/wt/out/c*; do
   id=$(basename $d)
-  for k in A B C D E F G H I J; do
+  for k in A B C D E F G H I J K L; do
     if ls $d | grep -qi "^${id}${k}\.patch\.diff$"; then
       if [ ! -f /verif/seeded/$(echo $id | tr a-z A-Z)$k/meta.json ] || [ "$FORCE" = "1" ]; then
         echo "=== $id $k"; tools/seed_eval.py $id $k quick 2>&1 | tail -4
